@@ -139,8 +139,12 @@ def check_c13(tier, seed, repo):
                 n += 1
                 tz = data.TimeZone(hours=-3, minutes=-30)
                 for i, x in enumerate(pts):
-                    if r[i] != x:
-                        bad = "r[%d] != %d-th iterated point" % (i, i)
+                    try:
+                        ri = r[i]
+                    except Exception as e:
+                        ri, bad = None, "r[%d] raised %s: %s" % (i, type(e).__name__, e)
+                    if ri is not None and ri != x:
+                        bad = "r[%d] = %s, the %d-th iterated point is %s" % (i, _S(ri), i, _S(x))
                     if not r.get_is_valid(x) or not r.get_is_valid(x.to_time_zone(tz)) or \
                             not r.get_is_valid(x.to_ordinal_date()):
                         bad = "member %s not valid" % _S(x)
